@@ -221,10 +221,30 @@ struct Machine
         std::exit(3);
       }
     } else if (s.op == "concat_local") {
-      Spl y = R(s.regs[1]);
+      // The statement has three spellings in the public API — `y += o`, `y.concat_local(o)`, `a + o` (non-mutating) — and an
+      // optional `reserve` that must not change anything.  The destination register number picks the spelling, so that every
+      // path is driven and observed by the same probes and the same model statement (API-coverage unit, DESIGN 8.10).
       const Spl o = R(s.regs[2]);
-      y += o;
-      regs.insert_or_assign(s.regs[0], std::move(y));
+      const int path = s.regs[0] % 4;
+      if (path == 0) {
+        Spl y = R(s.regs[1]);
+        y += o;
+        regs.insert_or_assign(s.regs[0], std::move(y));
+      } else if (path == 1) {
+        Spl y = R(s.regs[1]);
+        y.concat_local(o);
+        regs.insert_or_assign(s.regs[0], std::move(y));
+      } else if (path == 2) {
+        Spl & a = R(s.regs[1]);  // operator+ is declared without `const` (it copies *this; the probes on the source register
+                                 // after the statement show that it is left unchanged)
+        Spl sum = a + o;
+        regs.insert_or_assign(s.regs[0], std::move(sum));
+      } else {
+        Spl y = R(s.regs[1]);
+        y.reserve(y.size() + o.size() + 3);
+        y += o;
+        regs.insert_or_assign(s.regs[0], std::move(y));
+      }
     } else if (s.op == "concat_global") {
       Spl y = R(s.regs[1]);
       const Spl o = R(s.regs[2]);
